@@ -1,5 +1,6 @@
 import PolyVerif.Lemmas.LocationStrict
 import PolyVerif.Lemmas.LocationGrammar
+import PolyVerif.Lemmas.LocationWritten
 /-
 C02 — Feature sequences follow INSDC location semantics.
 
@@ -157,6 +158,43 @@ theorem build_3prime_witness :
   have hn : insdcParse (buildLoc ⟨(3 : Nat) - 1, (7 : Nat), false, false, false, true, []⟩) = none := by decide
   rw [hn] at h1
   cases h1
+
+/-! ### read after write: the parser on the text BuildLocationString writes (used by C03) -/
+
+/-- (A) the writer's text of `l` — `tprint true (norm l)`: 3′ markers after the end position, single bases as
+`n..n` (`written_text` below) — parses to the assembled structure of `norm l` with that text's flags on inner nodes -/
+theorem parsed_written_structure (l : Loc) (n : Nat) (h : InRange l n) (ha : Arity l) :
+    parseLocation (tprint true (norm l)) = .ok (pembedT true (norm l)) :=
+  parseLocation_tprint true (norm l) n (inRange_norm l n h) (arity_norm l ha)
+
+/-- what BuildLocationString writes for any structure representing `l` -/
+theorem written_text (p : PLoc) (l : Loc) (hp : Rep p l) (ha : Arity l) : buildLoc p = tprint true (norm l) :=
+  buildLoc_rep hp ha
+
+/-- (B) Writing ANY structure that represents `l` and parsing the written text gives a structure that represents
+`l` again (same location tree: same shape, positions, strands) with the same partial ends. -/
+theorem read_write_assembled (p : PLoc) (l : Loc) (n : Nat) (hp : Rep p l) (h : InRange l n) (ha : Arity l) :
+    ∃ q, parseLocation (buildLoc p) = .ok q ∧ Rep q l ∧ pends q = pends p :=
+  parse_buildLoc_rep hp n h ha
+
+/-- … hence read(write p) denotes the same bases and the same partial ends as `p` — a statement about the
+real writer's text (also where it is not strict INSDC) -/
+theorem read_write_denotes (p : PLoc) (l : Loc) (parent : Str) (hp : Rep p l) (h : InRange l parent.length)
+    (ha : Arity l) :
+    ∃ q, parseLocation (buildLoc p) = .ok q ∧ getSeq q parent = getSeq p parent ∧
+      getSeq q parent = .ok (denote l parent) ∧ pends q = ends l := by
+  obtain ⟨q, h1, h2, h3⟩ := read_write_assembled p l _ hp h ha
+  refine ⟨q, h1, ?_, getSeq_rep parent h2 h ha, ?_⟩
+  · rw [getSeq_rep parent h2 h ha, getSeq_rep parent hp h ha]
+  · rw [h3, pends_rep hp ha]
+
+/-- a single span with ARBITRARY int coordinates (negative start, `{0,0}`, stop < start: Build writes `-4..3`,
+`1..0`) and any markers is read back exactly -/
+theorem read_write_leaf (start stop : Int) (five three : Bool) :
+    parseLocation (buildLoc ⟨start, stop, false, false, five, three, []⟩) =
+      .ok ⟨start, stop, false, false, five, three, []⟩ := by
+  rw [buildLoc_leaf]
+  exact parse_written_leaf _ start stop five three
 
 /-! ### parseLocation does not panic on location texts (used by C01: genbank.Parse of a well-formed record) -/
 
